@@ -361,6 +361,7 @@ pub const OP_FLUSH: u64 = 1;
 pub const OP_PEEK: u64 = 2; // get_output
 pub const OP_FINISH: u64 = 3;
 pub const OP_WRITE_ALL: u64 = 4; // offer everything that is left, write_all style
+pub const OP_WRITE_N: u64 = 5; // feed exactly the next arg bytes, write_all style
 
 #[derive(Clone, Debug)]
 pub struct StreamEvent {
@@ -423,7 +424,7 @@ pub fn run_stream(
             };
             match op {
                 OP_WRITE => {
-                    if dead && !continue_after_error {
+                    if (dead || out.stalled) && !continue_after_error {
                         continue;
                     }
                     let n = (arg as usize).min(data.len() - pos);
@@ -451,15 +452,20 @@ pub fn run_stream(
                         sink_len: st.borrow().accepted.len(),
                     });
                 }
-                OP_WRITE_ALL => {
+                OP_WRITE_ALL | OP_WRITE_N => {
+                    let end = if op == OP_WRITE_ALL {
+                        data.len()
+                    } else {
+                        (pos + arg as usize).min(data.len())
+                    };
                     let mut guard = 0;
-                    while pos < data.len() && !(dead && !continue_after_error) {
+                    while pos < end && !((dead || out.stalled) && !continue_after_error) {
                         guard += 1;
                         if guard > data.len() + 8 {
                             break;
                         }
-                        let n = data.len() - pos;
-                        let res = s.write(&data[pos..]);
+                        let n = end - pos;
+                        let res = s.write(&data[pos..end]);
                         let mut stop = false;
                         let ev = match res {
                             Ok(k) => {
